@@ -107,10 +107,15 @@ func generate(r *rng.R, thorough bool, index int) *history {
 	var last *scheduler.VerifState
 
 	do := func(o opJSON) {
+		if w.ct.hung {
+			return // the implementation is wedged: the history ends here
+		}
 		h.Ops = append(h.Ops, o)
 		w.apply(o)
 		w.ct.takeObs()
-		last = w.bq.VerifDump()
+		if !w.ct.hung {
+			last = w.bq.VerifDump()
+		}
 	}
 	dt := func() int64 {
 		if policy && r.Chance(80) {
